@@ -12,18 +12,33 @@ def run(ck):
                "a seeded order) and the resulting tunnel list is judged by the SyncDecl predicate in TLC; non-trivial = some tunnel needs a "
                "hostname and the registered set is not empty, or a configured hostname is duplicated / also registered")
     if ck.thorough:
-        consts = {"MaxTun": 4, "MaxReg": 3, "ConfNames": '{"", "a", "b", "c.example.com"}',
-                  "RegNames": '{"a", "b", "x", "y", "c.example.com", "d.example.com"}'}
+        rounds = [{"MaxTun": 4, "MaxReg": 3},
+                  {"MaxTun": 3, "MaxReg": 3, "ConfNames": '{"", "a", "b", "c.example.com"}',
+                   "RegNames": '{"a", "b", "x", "y", "c.example.com", "d.example.com"}'}]
     else:
-        consts = {"MaxTun": 3, "MaxReg": 3}
+        rounds = [{"MaxTun": 3, "MaxReg": 2}]
     bg = clientlib.build_bg(ck, "client")       # the driver is built while TLC enumerates the cases
-    r = ck.tlc("ClientCfg", "MC_ClientCfg_sync.cfg", constants=consts, timeout=900)
-    cases = r.printed
-    if ck.replay is not None:
-        cases = [ck.replay]
+    binary = None
+    for consts in rounds:
+        if ck.replay is not None:
+            one_round(ck, bg(), rounds[-1], [ck.replay])
+            break
+        if binary is None:
+            r = ck.tlc("ClientCfg", "MC_ClientCfg_sync.cfg", constants=consts, timeout=1500)
+            binary = bg()
+        else:
+            r = ck.tlc("ClientCfg", "MC_ClientCfg_sync.cfg", constants=consts, timeout=1500)
+        one_round(ck, binary, consts, r.printed)
+    ck.exhaustive = True
+    ck.assumptions += ["hostnames are atoms: the code only compares them for equality and tests for a dot",
+                       "the gateway reports each registered hostname once and GenerateHostname returns fresh dot-free names (scripted RPC)",
+                       "all RPCs succeed (a failed GenerateHostname leaves the tunnel without a hostname by design)",
+                       "the client object is reused across cases and reset to the case's tunnel list (NewClient's certificate cache is costly)"]
+
+
+def one_round(ck, b, consts, cases):
     if not cases:
         raise vf.Infra("no cases")
-    b = bg()
     d = clientlib.scratch_dir(ck, "c43")
     try:
         recs = ck.drive(b, ["sync", d], input_lines=[c["c"] for c in cases], timeout=900)
@@ -52,17 +67,11 @@ def run(ck):
             ck.violation("C43:targets-changed", "the sync changed the targets / length of the tunnel list; case=%s out=%s" % (json.dumps(cc), o["out"]), c)
         bad = [k for k in CLAUSES if not v[k]]
         if bad:
-            shape = "%dtun-%dreg" % (len(cc["tun"]), len(cc["reg"]))
-            ck.violation("C43:%s:%s" % ("+".join(bad), shape),
+            ck.violation("C43:%s" % "+".join(bad),
                          "hostname assignment violates clause(s) %s of the statement: tunnels=%s registered(order given)=%s -> hostnames=%s, newly requested=%s"
                          % (bad, json.dumps(cc["tun"]), o["regorder"], o["out"], o["gen"]), c)
         elif sorted(x for x in o["out"] if x) != sorted(x for x in c["e"]["out"] if x):
             differs += 1
     ck.traces += len(cases)
-    ck.exhaustive = True
     if differs:
         ck.notes.append("%d outcomes meet the statement but use other hostnames than the transcribed loop (order of the registered list; not judged)" % differs)
-    ck.assumptions += ["hostnames are atoms: the code only compares them for equality and tests for a dot",
-                       "the gateway reports each registered hostname once and GenerateHostname returns fresh dot-free names (scripted RPC)",
-                       "all RPCs succeed (a failed GenerateHostname leaves the tunnel without a hostname by design)",
-                       "the client object is reused across cases and reset to the case's tunnel list (NewClient's certificate cache is costly)"]
